@@ -575,6 +575,7 @@ FUNCS = [
     ('g_deltaForm', 'localcider/backend/sequence.py', 'Sequence', 'deltaForm', []),
     ('g_delta', 'localcider/backend/sequence.py', 'Sequence', 'delta', []),
     ('g_kappa', 'localcider/backend/sequence.py', 'Sequence', 'kappa', []),
+    ('g_linCompositions', 'localcider/backend/sequence.py', 'Sequence', 'linearCompositions', []),
     ('g_linDensity', 'localcider/backend/sequence.py', 'Sequence', 'linearDenistyOfAAs', []),
     ('g_linHydro', 'localcider/backend/sequence.py', 'Sequence', 'linearDistOfHydropathy', ['aminoacids.']),
     ('g_linNCPR', 'localcider/backend/sequence.py', 'Sequence', 'linearDistOfNCPR', []),
